@@ -26,7 +26,7 @@ class CallRecord:
     __slots__ = (
         "k", "variables", "realizations", "perturbations", "active_objectives",
         "active_constraints", "active", "obj", "con", "returned", "ret_obj_ref",
-        "ret_con_ref", "faults", "kind", "config", "raised", "memo_hit",
+        "ret_con_ref", "faults", "kind", "config", "raised", "memo_hit", "ret_info_ref", "ret_info",
     )
 
     def kind_of(self) -> str:
@@ -216,6 +216,8 @@ class SimEvaluator:
             info = {"sim_id": np.arange(nrows) + 1000 * k}
         result = EvaluatorResult(objectives=obj, constraints=con, batch_id=k, evaluation_info=info)
         rec.returned = result
+        rec.ret_info_ref = info
+        rec.ret_info = {key: (val, val.copy()) for key, val in info.items()}
         rec.ret_obj_ref = obj
         rec.ret_con_ref = con
         if key is not None:
@@ -241,6 +243,19 @@ class SimEvaluator:
                 self.alias_errors.append(f"{when}: result object of call {rec.k}: .constraints rebound")
             elif rec.con is not None and not _same(res.constraints, rec.con):
                 self.alias_errors.append(f"{when}: constraints array of call {rec.k} modified")
+            info_ref = getattr(rec, "ret_info_ref", None)
+            if info_ref is not None:
+                if res.evaluation_info is not info_ref:
+                    self.alias_errors.append(f"{when}: result object of call {rec.k}: .evaluation_info rebound")
+                elif set(info_ref) != set(rec.ret_info):
+                    self.alias_errors.append(f"{when}: evaluation_info dict of call {rec.k}: keys changed")
+                else:
+                    for key, (arr, pristine) in rec.ret_info.items():
+                        if info_ref[key] is not arr:
+                            self.alias_errors.append(f"{when}: evaluation_info dict of call {rec.k}: entry {key!r} replaced "
+                                                     f"(shape {pristine.shape} -> {np.shape(info_ref[key])})")
+                        elif not _same(arr, pristine):
+                            self.alias_errors.append(f"{when}: evaluation_info array of call {rec.k} modified")
             if res.batch_id != rec.k and not rec.memo_hit:
                 self.alias_errors.append(f"{when}: batch_id of call {rec.k} modified")
 
